@@ -52,6 +52,10 @@ func (db *Builder) Add(b []byte) error {
 		return errors.New("byte slices must be added in lexicographical order")
 	}
 	db.lastWord = b
+	if db.lastWord == nil {
+		//A nil slice is the empty word but lastWord == nil means that no word has been added yet.
+		db.lastWord = []byte{}
+	}
 	_, suffix, lastNode := db.d.commonPrefix(b)
 	if len(lastNode.links) != 0 {
 		db.register = replaceOrRegister(lastNode, db.register)
